@@ -64,6 +64,15 @@ func (u *Unit) enterLoop(fr *Frame, li *loopInfo, st *State) *State {
 	if g := u.autoRangeInv(fr, li, st); g != nil {
 		u.oblige("inv-init", fmt.Sprintf("L%d-rangeindex", li.ordinal), st, g, token.NoPos, "-1 <= hidden range index < len (engine-generated)")
 	}
+	// the function's frame condition is kept as an invariant of every loop that writes the heap
+	frameKeys := u.loopFrameKeys(fr, li)
+	for _, k := range frameKeys {
+		if g := u.frameGoal(st, k); g != nil {
+			u.curWithout = u.con.frameWithout
+			u.oblige("inv-init", fmt.Sprintf("L%d-frame-%s", li.ordinal, k), st, g, token.NoPos, "frame condition so far ("+k+", engine-generated)")
+			u.curWithout = nil
+		}
+	}
 	// havoc
 	h := st.clone()
 	type retyped struct {
@@ -130,6 +139,13 @@ func (u *Unit) enterLoop(fr *Frame, li *loopInfo, st *State) *State {
 	if g := u.autoRangeInv(fr, li, h); g != nil {
 		u.assume(h.guard, g)
 	}
+	for _, k := range frameKeys {
+		if g := u.frameGoal(h, k); g != nil {
+			u.curTag = fmt.Sprintf("L%d-frame", li.ordinal)
+			u.assume(h.guard, g)
+			u.curTag = ""
+		}
+	}
 	u.probe(fmt.Sprintf("L%d", li.ordinal), h)
 	lc := &loopCtx{header: h.clone(), entry: st.clone()}
 	if ds := u.loopClauses(fr, li, "decreases"); len(ds) > 0 {
@@ -161,6 +177,14 @@ func (u *Unit) closeLoop(fr *Frame, li *loopInfo, st *State, from *ssa.BasicBloc
 	for _, h := range u.loopClauses(fr, li, "hint") {
 		u.applyHint(fr, st, h, li)
 	}
+	// step assertions: stepping stones about one iteration (may use prev())
+	steps := u.loopClauses(fr, li, "step")
+	for _, sc := range steps {
+		g := u.evalClause(fr, st, sc, li)
+		u.curWithout = sc.without
+		u.oblige("assert", fmt.Sprintf("L%d-step-%s", li.ordinal, labelOr(sc, steps)), st, g, token.NoPos, sc.text)
+		u.curWithout = nil
+	}
 	invs := u.loopClauses(fr, li, "invariant")
 	for _, inv := range invs {
 		g := u.evalClause(fr, st, inv, li)
@@ -170,6 +194,13 @@ func (u *Unit) closeLoop(fr *Frame, li *loopInfo, st *State, from *ssa.BasicBloc
 	}
 	if g := u.autoRangeInv(fr, li, st); g != nil {
 		u.oblige("inv-preserve", fmt.Sprintf("L%d-rangeindex", li.ordinal), st, g, token.NoPos, "-1 <= hidden range index < len (engine-generated)")
+	}
+	for _, k := range u.loopFrameKeys(fr, li) {
+		if g := u.frameGoal(st, k); g != nil {
+			u.curWithout = u.con.frameWithout
+			u.oblige("inv-preserve", fmt.Sprintf("L%d-frame-%s", li.ordinal, k), st, g, token.NoPos, "frame condition so far ("+k+", engine-generated)")
+			u.curWithout = nil
+		}
 	}
 	if lc.variant != nil {
 		ds := u.loopClauses(fr, li, "decreases")
@@ -474,6 +505,14 @@ func (u *Unit) appendOp(fr *Frame, st *State, c *ssa.CallCommon, args []Val, pos
 		m.MkSlice(newRef, m.IxConst(0), n1, newCap))
 	if m.mode == ModeInt {
 		u.assume(st.guard, m.IxLt(n1, m.IxConst(1<<62)))
+	}
+	// derived fact stated directly on the result (helps instantiation): the old
+	// elements are still there, whichever branch (in place / reallocated) was taken
+	{
+		j := tb.BoundVar("j", ix)
+		resArr := tb.Select(E2, m.SliceRef(res))
+		keep := tb.Eq(tb.Select(resArr, m.ElemIx(m.SliceOff(res), j)), tb.Select(oldArr, m.ElemIx(m.SliceOff(s), j)))
+		u.assume(st.guard, tb.Forall([]*Term{j}, tb.Implies(tb.And(m.IxLe(m.IxConst(0), j), m.IxLt(j, n0)), keep)))
 	}
 	return res
 }
@@ -935,4 +974,20 @@ func (u *Unit) autoRangeInv(fr *Frame, li *loopInfo, st *State) *Term {
 	}
 	m := u.m
 	return m.tb.And(m.IxLe(m.IxConst(-1), idx), m.IxLt(idx, m.tb.Ite(m.IxLt(lenV.(*Term), m.IxConst(0)), m.IxConst(0), lenV.(*Term))))
+}
+
+// loopFrameKeys: heap keys written by the loop for which the top-level
+// function's frame condition is maintained as an invariant.
+func (u *Unit) loopFrameKeys(fr *Frame, li *loopInfo) []string {
+	if !fr.top || li.modAll || u.con == nil || !u.frame().active || u.frame().everything {
+		return nil
+	}
+	var ks []string
+	for k := range li.modHeap {
+		if k != allocHeapKey {
+			ks = append(ks, k)
+		}
+	}
+	sort.Strings(ks)
+	return ks
 }
